@@ -667,7 +667,12 @@ func (wd *vC02World) tamper(base *common.VersionedTransaction, enc []byte, ts ui
 			continue
 		}
 		var verr error
-		panicked, _, _ := verifkit.Guard(func() { verr = tx2.Validate(wd.sim.Store, ts, false) })
+		// a third of the validations run the way bodies of finalized snapshots are validated (authorization is the same)
+		fork := rng.Intn(3) == 0
+		if fork {
+			r.Count("tamper_validated_on_the_finalization_path", 1)
+		}
+		panicked, _, _ := verifkit.Guard(func() { verr = tx2.Validate(wd.sim.Store, ts, fork) })
 		if panicked {
 			r.Count("panics_seen_(C05_territory)", 1)
 			continue
@@ -1028,7 +1033,11 @@ func TestVerif_C02(t *testing.T) {
 			}
 		}
 		var verr error
-		panicked, _, _ := verifkit.Guard(func() { verr = parsed.Validate(sim.Store, ts, false) })
+		fork := rng.Intn(3) == 0
+		if fork {
+			r.Count("candidates_validated_on_the_finalization_path", 1)
+		}
+		panicked, _, _ := verifkit.Guard(func() { verr = parsed.Validate(sim.Store, ts, fork) })
 		r.Eval()
 		label := c.mode + "_" + map[bool]string{true: "honest", false: "forged-" + c.forge}[c.forge == ""]
 		r.Count("candidates_"+label, 1)
